@@ -12,7 +12,7 @@ from xsdata.formats.dataclass.parsers.config import ParserConfig
 from xsdata.formats.dataclass.parsers.mixins import XmlNode
 from xsdata.formats.dataclass.parsers.utils import ParserUtils, PendingCollection
 from xsdata.logger import logger
-from xsdata.models.enums import DataType, Namespace
+from xsdata.models.enums import DataType, Namespace, QNames
 from xsdata.utils.namespaces import target_uri
 
 
@@ -184,6 +184,11 @@ class ElementNode(XmlNode):
             var = self.meta.find_attribute(qname)
             if var and var.name not in params:
                 self.bind_attr(params, var, value)
+            elif qname in (QNames.XSI_TYPE, QNames.XSI_NIL):
+                # Control attributes: the parser has interpreted them and
+                # the serializer writes them itself, keep them out of the
+                # attributes map of the class
+                continue
             else:
                 var = self.meta.find_any_attributes(qname)
                 if var:
